@@ -347,6 +347,12 @@ func (m *Message) GetClassAdRaw(ctx context.Context) (string, error) {
 func (m *Message) GetClassAdRawBody(ctx context.Context, numExprs int) (string, error) {
 	var b strings.Builder
 	for i := 0; i < numExprs; i++ {
+		// numExprs is peer-controlled. On a cleartext stream GetString returns
+		// "" without error once the message is exhausted, so without this check
+		// a huge count would spin (and grow b) long after the input ended.
+		if m.Finished() {
+			return "", fmt.Errorf("message ended after %d of %d expressions", i, numExprs)
+		}
 		exprStr, err := m.GetString(ctx)
 		if err != nil {
 			return "", fmt.Errorf("failed to read expression %d (expected %d): %w", i, numExprs, err)
